@@ -19,10 +19,17 @@ AnswerOK(mine, theirs, r, i) ==
    ELSE IF want = V!ErrVer THEN (IF Dev /\ i > 1 THEN ~r.err /\ r.v = 0 ELSE r.err)
    ELSE ~r.err /\ r.v = want
 Helper(e) == [ negotiated |-> \A i \in 1..Len(e.res) : AnswerOK(e.mine, e.theirs, e.res[i], i) ]
+\* Versions 0 and 1 are the implemented ones: OFFER / ACCEPT is refused with an unsupported-version error for any other
+\* negotiated version (filterContentKeys, parseOfferResp), by design; the framing of find-content streams has no such
+\* path.  For a pairing whose highest common version is implemented both transfers must succeed; for a higher one the
+\* large find-content must still succeed with the stored bytes (both sides frame alike) and an offer may fail but must
+\* not deliver anything else than what was offered.
+Implemented == {0, 1}
 Transfer(e) ==
-   LET common == SetOf(e.a) \cap SetOf(e.b) IN
-   [ sharedSucceeds |-> common # {} => /\ e.offer \in {"delivered", "noobs", "accepted-noobs"} /\ (e.offer = "delivered" => e.offerEq)
-                                       /\ e.fc \in {"ok", "noobs"} /\ (e.fc = "ok" => e.fcEq),
+   LET common == SetOf(e.a) \cap SetOf(e.b)
+       hc == IF common = {} THEN -1 ELSE V!MaxOf(common) IN
+   [ sharedSucceeds |-> common # {} => /\ e.fc \in {"ok", "noobs"} /\ (e.fc = "ok" => e.fcEq)
+                                       /\ hc \in Implemented => (e.offer \in {"delivered", "noobs", "accepted-noobs"} /\ (e.offer = "delivered" => e.offerEq)),
      noCommonNoTransfer |-> common = {} => (Dev /\ e.attempt > 1) \/ (e.offer \in {"err", "noobs"} /\ e.fc \in {"err", "noobs"}),
      intact |-> (e.offer = "delivered" => e.offerEq) /\ (e.fc = "ok" => e.fcEq) ]
 Failed(r) == {f \in DOMAIN r : ~r[f]}
